@@ -250,6 +250,13 @@ func C14(c *run.Ctx) {
 			}
 			return b2i(off(s)+50000 >= 0)
 		}},
+		// the same constraint carried as a JSON NUMBER inside an OpenID Connect request object (the natural spelling there)
+		{"max_age=50 (number, in a request object)", url.Values{"request": {"REQOBJ-MAXAGE-50"}}, func(s sessVar) int {
+			if s.zeroAuth {
+				return 0
+			}
+			return b2i(off(s)+50000 >= 0)
+		}},
 		{"max_age=1000", url.Values{"max_age": {"1000"}}, func(s sessVar) int {
 			if s.zeroAuth {
 				return 0
@@ -301,6 +308,10 @@ func C14(c *run.Ctx) {
 		for _, jwtAT := range []bool{false, true} {
 			w := world.New(world.Opts{IDKey: key.Key, JWTAccess: jwtAT, Mode: world.Mode{DB: ki%2 == 1, Hydrate: jwtAT}, Cfg: func(cfg *fosite.Config) { cfg.IDTokenLifespan = 30 * time.Minute }})
 			w.IDAlg = key.Alg
+			ck := world.GetKeys()
+			w.AddClient(world.ClientSpec{ID: "ro14", Kind: "oidc", Secret: "s-ro14", AuthMethod: "client_secret_basic", ReqObjAlg: "RS256",
+				JWKS:         &jose.JSONWebKeySet{Keys: []jose.JSONWebKey{{Key: &ck.ClientRSA[0].PublicKey, KeyID: "k0", Algorithm: "RS256", Use: "sig"}}},
+				RedirectURIs: []string{"https://ro14.example/cb"}, GrantTypes: world.AllGrants, ResponseTypes: world.AllResponseTypes, Scopes: []string{"openid", "fosite", "offline"}})
 			life := 30 * time.Minute
 			// id token hints
 			hintFor := func(sub string, exp time.Time, k interface{}, alg string) string {
@@ -334,6 +345,16 @@ func C14(c *run.Ctx) {
 						if q.Get("nonce") == "" {
 							q.Del("nonce")
 							nonce = ""
+						}
+						if q.Get("request") == "REQOBJ-MAXAGE-50" {
+							if rt == "device" {
+								continue // the device authorization endpoint takes no request objects
+							}
+							// ro14 registers a key and RS256 for its request objects
+							client, sp = "ro14", w.Specs["ro14"]
+							q.Set("client_id", client)
+							q.Set("redirect_uri", sp.RedirectURIs[0])
+							q.Set("request", world.SignJWT(ck.ClientRSA[0], "RS256", map[string]interface{}{"kid": "k0"}, map[string]interface{}{"iss": client, "aud": world.Issuer, "client_id": client, "max_age": 50}))
 						}
 						switch q.Get("id_token_hint") {
 						case "OWN":
